@@ -396,6 +396,12 @@ theorem deserialize_serialize (cd : DataCodec) (okD : Data → Bool) (law : Code
     simp [h3]
   · simp
 
+-- non-vacuity: the separation hypothesis holds for any injective H (here the identity);
+-- the length hypothesis holds for every script a machine can hold (< 2⁶⁴ bytes)
+example (code : Bytes) (v v' : PlutusVersion) (h : v' ≠ v) :
+    (id (versionTag v' :: code) : Bytes) ≠ id (versionTag v :: code) := by
+  cases v <;> cases v' <;> simp_all [versionTag]
+
 end Published
 
 end AikenVerif.C08
